@@ -84,8 +84,18 @@ class JsonSchemaParser:
     @classmethod
     def get_constraints(cls, schema: dict):
         constraints = {}
+        applicable = None
+        schema_type = schema.get('type')
+        if isinstance(schema_type, str):
+            # a keyword constrains the types it is defined for and is ignored for the others
+            # ({"type": "string", "maxLength": 2, "maxItems": 5}: maxItems says nothing about a string)
+            for types, keywords in constant.TYPE_CONSTRAINTS_MAP.items():
+                if schema_type in types:
+                    applicable = set(keywords.values())
         for key, val in schema.items():
             if key in constant.CONSTRAINTS_MAP:
+                if applicable is not None and key not in applicable:
+                    continue
                 constraints[constant.CONSTRAINTS_MAP[key]] = val
         return constraints
 
